@@ -447,3 +447,9 @@ pub fn exotic() -> Vec<char> {
         '\u{e000}', '\u{10ffff}', '١', '½', 'ª', '\u{7f}', '—', '…', '⁇', 'ẞ',
     ]
 }
+
+/// F7: non-ASCII numerics inside words (subscript, full-width and Arabic-Indic digits)
+pub fn fam7(l: L) -> Vec<char> {
+    let s = sym(l);
+    vec![s.v, s.c, '₂', '１', '٣', ' ']
+}
